@@ -208,6 +208,21 @@ def merge_extra(extras):
 
 
 def check(case):
+    """run in a dedicated thread with Python's DEFAULT recursion limit: Hypothesis raises the limit around a test
+    body, which would hide code that only misbehaves when it has to raise the limit itself"""
+    from harness.props.c15 import _run_in_big_thread
+
+    def body():
+        old = sys.getrecursionlimit()
+        sys.setrecursionlimit(1000)
+        try:
+            return _check(case)
+        finally:
+            sys.setrecursionlimit(old)
+    return _run_in_big_thread(body)
+
+
+def _check(case):
     kind, site, excname = case["cell"]
     exc = EXCS[excname]
     in_block = kind == "qp-in-recursion-block"
